@@ -643,7 +643,8 @@ def r05_3(ctx):
                     ctx.ob(f"{fmt}:prefix-size-constant", False, sup.site(nn), f"prefix(n) with n from {cfgbound.describe(alts)}: not a built-in value <= {cap} bytes that only a caller's setting replaces")
                     continue
                 ctx.ob(f"{fmt}:prefix-size-constant", isinstance(v, int) and v <= cap, sup.site(nn), f"prefix({v}) (accepted look-ahead for this trial: <= {cap} bytes)")
-                if fmt == "toml" and isinstance(v, int):
+                if fmt == "toml" and isinstance(v, int) and v > 0:
+                    # (a `prefix(0)` peek at what earlier trials captured is no look-ahead and has no cap to test)
                     # the prefix length is compared with the same constant and the at-or-above-cap outcome
                     # never reaches the parser
                     parsers = [x for x, _, tt in sup.calls() if (fn_of(tt) or {}).get("crate") == "toml"]
@@ -736,8 +737,37 @@ def r05_6(ctx):
     memo_ = {}
     n = 0
     bad = []
+    # the smallest look-ahead a trial asks for by itself (`prefix(1)` of the MessagePack trial): a request of at most
+    # that size made in front of the trials (an "is the input empty?" test on the detection arm) reads nothing the
+    # first trial would not have read as its first step
+    min_trial = None
+    for tb in common.trial_functions(ctx.facts).values():
+        for _, bx_, t_ in Super(lib, tb, depth=2).calls():
+            cb_ = lib.by_id.get((fn_of(t_) or {}).get("resolved") or (fn_of(t_) or {}).get("def"))
+            if cb_ and cb_.raw.get("ret_ty", "").startswith("std::result::Result<&[u8], std::io::Error>") and len(t_["args"]) == 2:
+                v_ = common.accessor_const(lib, bx_, t_["args"][1])
+                if isinstance(v_, int):
+                    min_trial = v_ if min_trial is None else min(min_trial, v_)
+
+    def _small_prefix(bx_, t_):
+        cb_ = lib.by_id.get((fn_of(t_) or {}).get("resolved") or (fn_of(t_) or {}).get("def"))
+        if not (cb_ and cb_.raw.get("ret_ty", "").startswith("std::result::Result<&[u8], std::io::Error>") and len(t_["args"]) == 2):
+            return False
+        v_ = common.accessor_const(lib, bx_, t_["args"][1])
+        return isinstance(v_, int) and min_trial is not None and v_ <= min_trial
+
+    def _under_small_prefix(sup_, nn_):
+        for i_, cs in enumerate(nn_[0]):
+            caller = sup_.body_of((nn_[0][:i_], 0)) if i_ else sup_.root
+            ct_ = caller.blocks[cs[1]]["term"]
+            if _small_prefix(caller, ct_):
+                return True
+        return False
+
     for nn, bx, t in sup.calls():
         if any(cs[2] in trials for cs in nn[0]):
+            continue
+        if _small_prefix(bx, t) or _under_small_prefix(sup, nn):
             continue
         f = fn_of(t) or {}
         callee = f.get("resolved") or f.get("def")
@@ -764,6 +794,8 @@ def r05_6(ctx):
             f = fn_of(t) or {}
             callee = f.get("resolved") or f.get("def")
             if callee == det.id or callee in trials:
+                continue
+            if _small_prefix(bx, t) or _under_small_prefix(csup, nn):
                 continue
             if not any(d in csup.reachable_from(nn) for d in dnodes):
                 continue
@@ -1117,6 +1149,8 @@ def r10_4(ctx):
         okc = all(cfgbound.is_default_with_override(a_, floor_, 1 << 62) for _, a_ in cap_params)
         ctx.ob("cap-covers-2MiB", okc, site(trial), f"the adjustable TOML look-ahead cap comes from {[cfgbound.describe(a_) for _, a_ in cap_params]}: " + (f"every built-in value is >= {floor_}, anything else is the caller's own setting" if okc else f"not a built-in value >= {floor_} that only a caller's setting replaces"))
         return
+    # (the cap is the largest look-ahead the trial asks for: a `prefix(0)` peek at what is already captured is not it)
+    caps = [max(caps)]
     ctx.ob("cap-covers-2MiB", min(caps) >= floor_, site(trial), f"TOML look-ahead cap {min(caps)} >= {floor_}" if min(caps) >= floor_ else
            f"the TOML trial gives up on unbuffered reader input of {min(caps)} bytes or more, below the 2 MiB ({floor_}) up to which detected and explicit runs must agree: xt's own TOML output between the two sizes is no longer recognised when piped back")
 
